@@ -291,42 +291,76 @@ void execDensity(const Plan &plan, const ExecOptions &opt, ExecResult &res) {
   float sizeFactor = params.global.roughLegalization.binSize;
   float sideMargin = params.global.roughLegalization.sideMargin;
   Snapshot snap = takeSnapshot(circuit);
-  FreeSpace fs = computeFree(snap);
-  if (fs.rowHeight <= 0 || !fs.disjointRows) {
-    res.invalidPlan = true;
-    res.invalidWhy = "rows not uniform/disjoint";
-    cx.tr.finish();
-    return;
-  }
-  int minCellHeight = INT_MAX;
-  for (int c = 0; c < snap.n(); ++c)
-    if (snap.h[c] > 0) minCellHeight = std::min(minCellHeight, snap.h[c]);
-  if (minCellHeight == INT_MAX) {
-    res.invalidPlan = true;
-    res.invalidWhy = "no cell of positive height";
-    cx.tr.finish();
-    return;
-  }
-  int margin = sideMargin * minCellHeight;  // same float arithmetic as the documentation describes
-  // reference regions: free segments clipped by the margin
   struct Reg {
     long long x0, x1, y0, y1;
   };
   std::vector<Reg> regs;
-  for (auto &kv : fs.levels)
-    for (auto &iv : kv.second)
-      if (iv.e - iv.b > 2LL * margin) regs.push_back({iv.b + margin, iv.e - margin, kv.first, (long long)kv.first + fs.rowHeight});
-  if (regs.empty()) {
-    res.invalidPlan = true;
-    res.invalidWhy = "degenerate: no free segment survives the side margin";
-    cx.tr.finish();
-    return;
-  }
-  bool marginClause = (minCellHeight == fs.rowHeight) || margin == 0;
+  bool marginClause = true;
+  bool regionMode = !plan.head.empty() && plan.head[0] == 1;
+  std::optional<DensityLegalizer> lh;
   mk->op = 0;
   mk->opKind = 101;
   mk->dom07 = 1;
-  DensityLegalizer leg = DensityLegalizer::fromIspdCircuit(circuit, sizeFactor, sideMargin);
+  if (regionMode) {
+    // the grid is built directly from a list of disjoint regions (any heights),
+    // demands are the areas of the movable cells
+    long long binSize = plan.head.size() > 1 ? plan.head[1] : 4;
+    std::vector<Rectangle> regions;
+    for (auto &r : snap.rows) {
+      if (r.maxX <= r.minX || r.maxY <= r.minY) continue;
+      regions.emplace_back(r.minX, r.maxX, r.minY, r.maxY);
+      regs.push_back({r.minX, r.maxX, r.minY, r.maxY});
+    }
+    bool disjoint = true;
+    for (size_t i = 0; i < regs.size(); ++i)
+      for (size_t j = i + 1; j < regs.size(); ++j)
+        if (regs[i].x0 < regs[j].x1 && regs[j].x0 < regs[i].x1 && regs[i].y0 < regs[j].y1 && regs[j].y0 < regs[i].y1) disjoint = false;
+    if (regions.empty() || !disjoint || binSize < 1) {
+      res.invalidPlan = true;
+      res.invalidWhy = "regions empty or overlapping";
+      cx.tr.finish();
+      return;
+    }
+    std::vector<int> dem;
+    for (int c = 0; c < snap.n(); ++c) {
+      long long a = snap.fixed[c] ? 0 : (long long)snap.w[c] * snap.h[c];
+      dem.push_back((int)std::min<long long>(std::max<long long>(a, 0), 1 << 30));
+    }
+    DensityGrid grid((int)binSize, regions);
+    lh.emplace(grid, dem);
+    cx.stat("density_region_mode");
+  } else {
+    FreeSpace fs = computeFree(snap);
+    if (fs.rowHeight <= 0 || !fs.disjointRows) {
+      res.invalidPlan = true;
+      res.invalidWhy = "rows not uniform/disjoint";
+      cx.tr.finish();
+      return;
+    }
+    int minCellHeight = INT_MAX;
+    for (int c = 0; c < snap.n(); ++c)
+      if (snap.h[c] > 0) minCellHeight = std::min(minCellHeight, snap.h[c]);
+    if (minCellHeight == INT_MAX) {
+      res.invalidPlan = true;
+      res.invalidWhy = "no cell of positive height";
+      cx.tr.finish();
+      return;
+    }
+    int margin = sideMargin * minCellHeight;  // same float arithmetic as the documentation describes
+    // reference regions: free segments clipped by the margin
+    for (auto &kv : fs.levels)
+      for (auto &iv : kv.second)
+        if (iv.e - iv.b > 2LL * margin) regs.push_back({iv.b + margin, iv.e - margin, kv.first, (long long)kv.first + fs.rowHeight});
+    if (regs.empty()) {
+      res.invalidPlan = true;
+      res.invalidWhy = "degenerate: no free segment survives the side margin";
+      cx.tr.finish();
+      return;
+    }
+    marginClause = (minCellHeight == fs.rowHeight) || margin == 0;
+    lh.emplace(DensityLegalizer::fromIspdCircuit(circuit, sizeFactor, sideMargin));
+  }
+  DensityLegalizer &leg = *lh;
   leg.setParams(legParamsFrom(params, leg));
   int n = leg.nbCells();
   std::vector<float> tx(n, 0.0f), ty(n, 0.0f);
